@@ -47,14 +47,17 @@ Print Assumptions C19_only_if_and_content.
 
 (** FULL STATEMENT (false only in the corner excluded by the second guard):
       forall matches a b r, In r (reports_of evs) -> forall s, asserted r s = requested b s && occurred evs s.
-    Guards: the bundle is not a fragment routed to delivery, and the fragment step did not take the
-    bundle over on a route whose CL is not attached. *)
+    Guards: the bundle is not a fragment routed to delivery, the fragment step did not take the bundle over
+    on a route whose CL is not attached, and the application it is delivered to does not refuse it (the admin
+    element rejecting an ACME record records 'delete' after the delivery: the one report then asserts both
+    "delivered" and "deleted", see C19_refused_example). *)
 Theorem C19_content_partial :
   forall (matches : N -> eid -> bool) (a : agent) (b : bundle) (r : report),
     In r (reports_of (snd (fst (recv_core matches a b)))) ->
     mem ADlv (route_actions matches a b) && is_frag b = false ->
     (forall k, send_path matches a (b_dst b) (b_size b) (has_flag (b_flags b) FLAG_NO_FRAGMENT) (is_frag b) (b_fragfeas b)
                <> SentFrags k false) ->
+    b_refuse b = false ->
     forall s, asserted r s = requested b s && occurred (snd (fst (recv_core matches a b))) s.
 Proof. exact asserted_occurred_partial_r. Qed.
 Print Assumptions C19_content_partial.
@@ -119,8 +122,7 @@ Theorem C19_emitted_if_partial :
     accepted a b = true ->
     mem ADlv (route_actions matches a b) && is_frag b = false ->
     b_rpt b <> EID_NONE -> requested b ARecv = true ->
-    mem ADel (fst (sec_step b (route_actions matches a b))) || mem ADlv (fst (sec_step b (route_actions matches a b)))
-      || mem AFwd (fst (sec_step b (route_actions matches a b))) = true ->
+    mem ADel (chain_acts matches a b) || mem ADlv (chain_acts matches a b) || mem AFwd (chain_acts matches a b) = true ->
     exists e, In e (snd (fst (recv_core matches a b))) /\ is_report_ev e = true.
 Proof. exact report_attempted_if. Qed.
 Print Assumptions C19_emitted_if_partial.
@@ -159,11 +161,18 @@ Example C19_forwarded_not_deleted_example :
      = [[true; true; false; false]].
 Proof. vm_compute. repeat split. Qed.
 
+(* refused by the admin element after delivery: one report asserting received, delivered AND deleted *)
+Example C19_refused_example :
+  let a := w_agent [] [w_rpt_route] in
+  let b := mkBundle 5 1 7 1000 1 None ALL_REPORT_FLAGS 5 true None 0 95 true true in
+  map (fun r => map (asserted r) [ARecv; AFwd; ADlv; ADel]) (reports_of (w_events a b)) = [[true; false; true; true]].
+Proof. vm_compute. reflexivity. Qed.
+
 Example C19_emitted_if_example :
   let a := w_agent [(0, ADel)] [w_rpt_route] in
   let b := w_bundle 1000 1 None in
   accepted a b = true /\ mem ADlv (route_actions w_matches a b) && is_frag b = false
   /\ requested b ARecv = true
-  /\ mem ADel (fst (sec_step b (route_actions w_matches a b))) = true
+  /\ mem ADel (chain_acts w_matches a b) = true
   /\ length (reports_of (w_events a b)) = 1%nat.
 Proof. vm_compute. repeat split. Qed.
